@@ -416,7 +416,11 @@ def run(ck):
 
     def ed3(st, blk, k, succ):
         t = blk.term or {}
-        if "e:" + PR + "BodyStep::Chunk::Incomplete" in (t.get("refs") or []) and t.get("cmp") == "==" and k == 0:
+        INC = "e:" + PR + "BodyStep::Chunk::Incomplete"
+        if INC in (t.get("refs") or []) and t.get("cmp") in ("==", "!=") and k == ((0 if t["cmp"] == "==" else 1) if not t.get("neg") else (1 if t["cmp"] == "==" else 0)):
+            return "incomplete"
+        # `switch (chunk.parse(cursor)) { case Chunk::Incomplete: ...`
+        if t.get("k") == "switch" and succ in pte.blocks and (pte.blocks[succ].label or {}).get("const") == INC:
             return "incomplete"
         return st
     for p0 in pc:
